@@ -167,6 +167,43 @@ func body(w *runner.W) {
 		f1.Done()
 	}
 
+	// ---------------- F5: weak twins ----------------
+	// contents over {A, a, B, b} (a lower-case block has the weak hash of its upper-case
+	// block and other bytes: only the strong hash tells them apart), 0..2 blocks plus an
+	// optional short tail, one or two files: every ordered pair of builds
+	f5 := runner.NewSub(w, "F5-weak-twins", run)
+	if f5.Active() {
+		syms := []string{"A", "a", "B", "b"}
+		contents := []string{""}
+		for _, x := range syms {
+			contents = append(contents, x, x+".A/100", x+".B/65535")
+			for _, y := range syms {
+				contents = append(contents, x+"."+y)
+			}
+		}
+		var builds []wh.Build
+		for _, c := range contents {
+			builds = append(builds, wh.Build{wh.F("a", c)})
+		}
+		for _, c := range []string{"A", "a", "A.b", "a.B"} {
+			for _, d := range []string{"A", "a", "b.A"} {
+				builds = append(builds, wh.Build{wh.F("a", c), wh.F("d/b", d)})
+			}
+		}
+		n := 0
+		for _, ob := range builds {
+			for _, nb := range builds {
+				n++
+				if w.Quick() && n%3 != 0 {
+					continue
+				}
+				f5.Do(Case{Old: ob, New: nb, Comp: []wh.Comp{"none", "gzip-1", "brotli-1"}[n%3]})
+			}
+		}
+		f5.Note("builds", len(builds))
+		f5.Done()
+	}
+
 	// ---------------- F2: shapes x all compression settings ----------------
 	f2 := runner.NewSub(w, "F2-shapes", run)
 	if f2.Active() {
